@@ -27,6 +27,16 @@ enum Color
   HUGE_C = 0x7fffffff,
   NEG_C = -7
 };
+// an enumeration whose underlying type is wider than int: the same type on both sides of the boundary
+enum Wide64 : long long
+{
+  W_ZERO = 0,
+  W_SMALL = 7,
+  W_HIGHBIT = 0x80000000LL,
+  W_BIG = 0x100000002LL,
+  W_NEG = -0x100000005LL,
+  W_MIN = INT64_MIN
+};
 struct SimPair
 {
   long a;
@@ -72,6 +82,7 @@ int f_fn(long (*cb)(long, unsigned), void (*gf)(void));
 long f_struct(SimPair pr);
 long f_struct3(SimPair3 pr);
 long f_callS(long (*cb)(SimPair), SimPair pr);
+Wide64 f_callE(Wide64 (*cb)(Wide64), Wide64 v);
 int f_image_decoder_pipeline_process_header_block(int v);
 int f_image_decoder_pipeline_process_pixels_block(int v);
 SimPair f_ret_struct(long a);
@@ -125,12 +136,13 @@ enum FnId
   FN_CALLC,
   FN_STRUCT3,
   FN_CALLS,
+  FN_CALLE,
   FN_LONG1,
   FN_LONG2,
   FN_COUNT
 };
 static const char* kFnName[] = { "f_ints", "f_fp", "f_enum", "f_ptrs", "f_fn", "f_struct", "f_ret_struct", "f_void", "f_many", "f_u",
-                                 "f_rs", "f_ruc", "f_rll", "f_rb", "f_rf", "f_fnret", "f_callc", "f_struct3", "f_callS",
+                                 "f_rs", "f_ruc", "f_rll", "f_rb", "f_rf", "f_fnret", "f_callc", "f_struct3", "f_callS", "f_callE",
                                  "f_image_decoder_pipeline_process_header_block", "f_image_decoder_pipeline_process_pixels_block" };
 
 struct GuestRec
@@ -142,6 +154,7 @@ static std::vector<GuestRec> g_glog;
 static bool g_callc_override, g_callc_returned;
 static uint32_t g_callc_fp, g_callc_guest_got;
 static int32_t g_callc_l;
+static long long g_calle_v, g_calle_guest_got;
 static uint64_t g_result_bits; // what the guest returns (interpreted per function)
 static void grec(int fn, int lib, std::vector<uint64_t> args)
 {
@@ -196,6 +209,16 @@ struct G
   {
     grec(FN_STRUCT, LIB, { (uint64_t)(int64_t)pr.a, pr.p, (uint64_t)(int64_t)pr.s, pr.u });
     return (int32_t)g_result_bits;
+  }
+  static Wide64 callE(uint32_t cb, Wide64 v)
+  {
+    grec(FN_CALLE, LIB, { cb, (uint64_t)(long long)v });
+    if (g_callc_override)
+      v = (Wide64)g_calle_v; // the guest passes on whatever it likes
+    Wide64 r = Sbx::guest_call<Wide64, Wide64>(cb, v);
+    g_calle_guest_got = (long long)r;
+    g_callc_returned = true;
+    return r;
   }
   // hands the struct it received on to a callback, by value, after the guest has put its own pointer / long into it
   static int32_t callS(uint32_t cb, GPair pr)
@@ -319,7 +342,7 @@ static std::vector<Sym> make_lib()
                          { "f_rll", (void*)&G<LIB>::rll },       { "f_rb", (void*)&G<LIB>::rb },
                          { "f_rf", (void*)&G<LIB>::rf },         { "f_fnret", (void*)&G<LIB>::fnret },
                          { "f_callc", (void*)&G<LIB>::callc },   { "f_struct3", (void*)&G<LIB>::st3 },
-                         { "f_callS", (void*)&G<LIB>::callS },
+                         { "f_callS", (void*)&G<LIB>::callS },   { "f_callE", (void*)&G<LIB>::callE },
                          { "f_image_decoder_pipeline_process_header_block", (void*)&G<LIB>::long1 },
                          { "f_image_decoder_pipeline_process_pixels_block", (void*)&G<LIB>::long2 } };
   if (LIB == 1)
@@ -442,6 +465,20 @@ static rlbox::tainted<long, Sbx> app_cbS(Sandbox& sb, rlbox::tainted<SimPair, Sb
   return g_cbs_ret;
 }
 
+// a callback over the wide enumeration
+struct CbERec
+{
+  void* sandbox;
+  long long v;
+};
+static std::vector<CbERec> g_cbe_log;
+static long long g_cbe_ret;
+static rlbox::tainted<Wide64, Sbx> app_cbE(Sandbox& sb, rlbox::tainted<Wide64, Sbx> e)
+{
+  g_cbe_log.push_back(CbERec{ &sb, (long long)e.UNSAFE_unverified() });
+  return (Wide64)g_cbe_ret;
+}
+
 enum Kind
 {
   I_INTS,
@@ -540,6 +577,8 @@ struct InvokeWorld : World
     std::unique_ptr<CbC> cbc;
     using CbS = rlbox::sandbox_callback<long (*)(SimPair), Sbx>;
     std::unique_ptr<CbS> cbs;
+    using CbE = rlbox::sandbox_callback<Wide64 (*)(Wide64), Sbx>;
+    std::unique_ptr<CbE> cbe;
     TT<char*> buf = nullptr;
     TT<int*> ibuf = nullptr;
     bool have_addr[FN_COUNT] = {};
@@ -1257,10 +1296,43 @@ struct InvokeWorld : World
       C->violate("C12", "wrong_result_delivered_to_guest@callback_scalar_kinds", "struct parameter: callback returned %ld, guest received %d, application got %ld (%s)", retv, (int32_t)g_callc_guest_got, got, oname(o));
   }
 
+  // C12: an enumeration wider than int as parameter and result of a callback - the same type on both sides, every value
+  // of it must arrive as it was sent
+  void op_cbenum(SbxM& m, const Op& op)
+  {
+    if (!m.cbe)
+      return;
+    Rng r((uint64_t)op.a[2]);
+    static const long long vals[] = { W_ZERO, W_SMALL, W_HIGHBIT, W_BIG, W_NEG, W_MIN, 0x7fffffffLL, -1LL, 0xffffffffLL, INT64_MAX };
+    g_callc_override = true;
+    g_calle_v = r.chance(3, 4) ? vals[r.below(10)] : (long long)r.next();
+    g_cbe_ret = r.chance(3, 4) ? vals[r.below(10)] : (long long)r.next();
+    g_callc_returned = false;
+    g_cbe_log.clear();
+    long long got = 0;
+    size_t before = g_glog.size();
+    Outcome o = attempt([&] { got = (long long)m.sb->invoke_sandbox_function(f_callE, *m.cbe, W_SMALL).UNSAFE_unverified(); });
+    g_callc_override = false;
+    C->ev("callback_wide_enum %lld / %lld -> %s", g_calle_v, g_cbe_ret, oname(o));
+    C->probe("callback_with_enum_wider_than_int");
+    if (g_glog.size() != before + 1 || g_glog.back().fn != FN_CALLE)
+      return;
+    if (g_cbe_log.size() != 1)
+      C->violate("C12", "callback_not_run_exactly_once@callback_scalar_kinds", "wide enum: %zu runs (%s)", g_cbe_log.size(), oname(o));
+    else if (g_cbe_log[0].sandbox != m.sb.get() || g_cbe_log[0].v != g_calle_v)
+      C->violate("C12", "wrong_arguments@callback_scalar_kinds", "wide enum: the guest passed %lld (%#llx), the callback received %lld (%#llx)", g_calle_v, (unsigned long long)g_calle_v, g_cbe_log[0].v, (unsigned long long)g_cbe_log[0].v);
+    else if (o != OK || !g_callc_returned || g_calle_guest_got != g_cbe_ret || got != g_cbe_ret)
+      C->violate("C12", "wrong_result_delivered_to_guest@callback_scalar_kinds", "wide enum: callback returned %lld, guest received %lld, application got %lld (%s)", g_cbe_ret, g_calle_guest_got, got, oname(o));
+  }
+
   void op_cbtypes(SbxM& m, const Op& op)
   {
     if (op.a[1] & 4) {
       op_cbstruct(m, op);
+      return;
+    }
+    if ((op.a[1] & 7) == 3) {
+      op_cbenum(m, op);
       return;
     }
     if (!m.cbc)
@@ -1415,6 +1487,7 @@ struct InvokeWorld : World
       m.cb = std::make_unique<rlbox::sandbox_callback<long (*)(long, unsigned), Sbx>>(m.sb->register_callback(app_cb));
       m.cbc = std::make_unique<SbxM::CbC>(m.sb->register_callback(app_cbC));
       m.cbs = std::make_unique<SbxM::CbS>(m.sb->register_callback(app_cbS));
+      m.cbe = std::make_unique<SbxM::CbE>(m.sb->register_callback(app_cbE));
     });
   }
 
@@ -1531,6 +1604,7 @@ struct InvokeWorld : World
           m.cb.reset();
           m.cbc.reset();
           m.cbs.reset();
+          m.cbe.reset();
           attempt([&] { m.sb->destroy_sandbox(); });
           m.created = false;
           c.fired("F12_destroy_instance");
@@ -1651,6 +1725,7 @@ struct InvokeWorld : World
       m.cb.reset();
       m.cbc.reset();
       m.cbs.reset();
+          m.cbe.reset();
       if (m.created)
         attempt([&] { m.sb->destroy_sandbox(); });
     }
